@@ -4,6 +4,7 @@ import (
 	"fmt"
 	"math/rand"
 	"os"
+	"strconv"
 	"strings"
 
 	"github.com/openacid/slim/trie"
@@ -71,12 +72,25 @@ func loadLegacy(c *TrieCase, b []byte, preload bool) (st *trie.SlimTrie, ec, pan
 	return st, "", ""
 }
 
-func legacyEv(c *TrieCase, layout string, n int, ec, pan string) Ev {
+func legacyEv(c *TrieCase, layout string, b []byte, ec, pan string) Ev {
 	e := c.NewEv(ec, pan)
 	e["ev"] = "legacy"
 	e["layout"] = layout
 	e["v3"] = b2i(strings.HasPrefix(layout, "v3-"))
-	e["len"] = n
+	e["len"] = len(b)
+	// Level C (SlimWireOld): the bytes the harness's writer produced, up to 2 KiB, with
+	// the last number of the version (three sections: patch 0..9; else minor 10 / 11)
+	e["wire"], e["patch"], e["minor"] = []int{}, -1, -1
+	if len(b) <= 2048 {
+		e["wire"] = bints(b)
+	}
+	p := strings.Split(layout, ".")
+	last, _ := strconv.Atoi(p[len(p)-1])
+	if strings.HasPrefix(layout, "v3-") {
+		e["patch"] = last
+	} else {
+		e["minor"] = last
+	}
 	return e
 }
 
@@ -99,7 +113,7 @@ func runLegacyCase(t *Tracer, m *Meta, r *rand.Rand, c *TrieCase, layout string,
 		t.Emit(ObsEv(c, st0, "k", c.Keys, nil))
 	}
 	st, ec, pan := loadLegacy(c, b, r.Intn(3) == 0)
-	t.Emit(legacyEv(c, layout, len(b), ec, pan))
+	t.Emit(legacyEv(c, layout, b, ec, pan))
 	m.class("layout:" + layout)
 	if st == nil {
 		return
